@@ -21,21 +21,18 @@ cp $OUT/demo_test.go $WT/$PKGDIR/zz_demo_test.go
 demo_mut=unexpected-pass; (cd $WT && go test -vet=off -count=1 -timeout 120s -run "^$TNAME\$" ./$PKGDIR > $OUT/demo_with_mutation.log 2>&1) || demo_mut=fails
 (cd $WT && git apply -R $OUT/patch.diff)
 demo_clean=unexpected-fail; (cd $WT && go test -vet=off -count=1 -timeout 120s -run "^$TNAME\$" ./$PKGDIR > $OUT/demo_clean.log 2>&1) && demo_clean=passes
-git -C /repo worktree remove --force $WT; rm -rf $WT
-# run the check on /repo with the mutation
-if [ -n "$(git -C /repo status --porcelain)" ]; then echo "seedeval: /repo has uncommitted changes; commit them first" >&2; exit 3; fi
+rm -f $WT/$PKGDIR/zz_demo_test.go
+# run the check on the scratch worktree with the mutation applied (never on /repo, so that checks
+# running on /repo at the same time are not disturbed); -noevidence: the evidence files describe /repo
 detected=no; status=""
-if git -C /repo apply $OUT/patch.diff; then
-  cp /verif/evidence/$PROP.json /tmp/evidence_$PROP.keep 2>/dev/null
-  /verif/check $PROP quick > $OUT/check_with_mutation.log 2>&1; rc=$?
-  git -C /repo checkout -- . 
-  # the evidence file must describe the unchanged tree, not the mutated one
-  [ -f /tmp/evidence_$PROP.keep ] && mv /tmp/evidence_$PROP.keep /verif/evidence/$PROP.json
+if (cd $WT && git apply $OUT/patch.diff); then
+  /verif/bin/govc check $PROP -tier quick -repo $WT -verif /verif -noevidence > $OUT/check_with_mutation.log 2>&1; rc=$?
   [ $rc -eq 1 ] && detected=yes
   status="exit=$rc"
 else
   status="patch-does-not-apply-to-repo"
 fi
+git -C /repo worktree remove --force $WT; rm -rf $WT
 python3 - <<P
 import json
 m=json.load(open('$SRC/meta.json'))
